@@ -15,17 +15,27 @@ pub mod stub {
         #[verifier::external_body]
         pub fn now() -> (r: SystemTime) ensures r == clock_now(), 0 <= r.secs < 253402300800, r.nanos < 1_000_000_000 { unimplemented!() }
         /// `duration_since(UNIX_EPOCH)`: Err for times before the epoch (secs < 0 in this model).
+        #[verifier::external_body]
         pub fn duration_since(&self, earlier: SystemTime) -> (r: Result<Duration, SystemTimeError>)
             requires earlier.secs == 0 && earlier.nanos == 0, self.nanos < 1_000_000_000,
-            ensures self.secs >= 0 ==> (r matches Ok(d) && d.secs == self.secs && d.nanos == self.nanos), self.secs < 0 ==> r is Err,
-        { if self.secs >= 0 { Ok(Duration { secs: self.secs as u64, nanos: self.nanos }) } else { Err(SystemTimeError) } }
+            ensures self.secs >= 0 ==> (r matches Ok(d) && d.secs == self.secs && d.nanos == self.nanos),
+                    self.secs < 0 ==> (r matches Err(e) && e.d == before_epoch(*self)),
+        { unimplemented!() }
     }
-    pub struct SystemTimeError;
+    /// How far a pre-epoch time (secs < 0, timespec style: secs + nanos/1e9) lies before the epoch.
+    pub open spec fn before_epoch(t: SystemTime) -> Duration {
+        if t.nanos == 0 { Duration { secs: (-t.secs) as u64, nanos: 0 } } else { Duration { secs: (-t.secs - 1) as u64, nanos: (1_000_000_000 - t.nanos) as u32 } }
+    }
+    /// std::time::SystemTimeError: carries the (positive) distance between the two times.
+    #[derive(Debug)]
+    pub struct SystemTimeError { pub d: Duration }
+    impl SystemTimeError { pub fn duration(&self) -> (r: Duration) ensures r == self.d { self.d } }
     /// std::time::Duration
-    #[derive(Clone, Copy)]
+    #[derive(Clone, Copy, Debug)]
     pub struct Duration { pub secs: u64, pub nanos: u32 }
     impl Duration {
         pub fn subsec_nanos(&self) -> (r: u32) ensures r == self.nanos { self.nanos }
+        pub fn as_secs(&self) -> (r: u64) ensures r == self.secs { self.secs }
         pub fn from_nanos(n: u64) -> (r: Duration) ensures r.secs == n / 1_000_000_000, r.nanos == n % 1_000_000_000
         { Duration { secs: n / 1_000_000_000, nanos: (n % 1_000_000_000) as u32 } }
     }
